@@ -4084,8 +4084,9 @@ fn add_answer_of_service_on_host(
     qtype: RRType,
     intf_addrs: Vec<IpAddr>,
 ) {
+    let mut srv_added = false;
     if qtype == RRType::SRV || qtype == RRType::ANY {
-        out.add_answer(
+        srv_added = out.add_answer(
             msg,
             DnsSrv::new(
                 entry_name,
@@ -4111,7 +4112,8 @@ fn add_answer_of_service_on_host(
         );
     }
 
-    if qtype == RRType::SRV {
+    // An SRV answer left out because the querier knows it brings no additionals.
+    if qtype == RRType::SRV && srv_added {
         for address in intf_addrs {
             out.add_additional_answer(DnsAddress::new(
                 hostname,
